@@ -43,6 +43,18 @@ func pushSemantics(paths []bpath, stack string) stackPush {
 				res.Grow = false // a second change of the stack's length
 			}
 		}
+		// `t := len(S)` taken before the growth and used as the subscript of the new top afterwards: the normal form
+		// spells the local as its definition, so the slot reads S[len(S)] - never a valid subscript at the point where it
+		// stands, hence always the old length, which is the new top once the stack has grown by exactly one
+		if stale := "p." + stack + "[len(p." + stack + ")]"; res.Grow {
+			q := append(bpath{}, p...)
+			for i := iGrow + 1; i < len(q); i++ {
+				if strings.Contains(q[i].Text, stale) {
+					q[i].Text = strings.ReplaceAll(q[i].Text, stale, top)
+				}
+			}
+			p = q
+		}
 		// the top slot after the growth
 		fresh := ""
 		installed := appended
